@@ -274,11 +274,9 @@ func c13Long(c *mc.Ctx, L int) {
 func c13Big(c *mc.Ctx) {
 	type job struct{ l, pat int }
 	var jobs []job
-	for p := uint(10); p <= 14; p++ {
-		for _, d := range []int{-1, 0, 1, 7, 8, 9} {
-			for pat := 0; pat < 3; pat++ {
-				jobs = append(jobs, job{1<<p + d, pat})
-			}
+	for _, l := range gen.SizesAround(10, 14, []int{-1, 0, 1, 7, 8, 9}) {
+		for pat := 0; pat < 3; pat++ {
+			jobs = append(jobs, job{l, pat})
 		}
 	}
 	c.Par(len(jobs), func(ji int) {
